@@ -19,6 +19,7 @@ package scalarDistribution
 /* -------------------------------------------------------------------------- */
 
 import   "fmt"
+import   "math"
 
 import . "github.com/pbenner/autodiff"
 import . "github.com/pbenner/autodiff/statistics"
@@ -85,7 +86,7 @@ func (dist *CategoricalDistribution) Pdf(r Scalar, x ConstScalar) error {
 }
 
 func (dist *CategoricalDistribution) LogCdf(r Scalar, x ConstScalar) error {
-  r.Reset()
+  r.SetFloat64(math.Inf(-1))
   for i := 0; i <= int(x.GetFloat64()); i++ {
     r.LogAdd(r, dist.Theta.At(i), dist.t)
   }
